@@ -50,8 +50,18 @@ class RArray(R):
     __hash__ = object.__hash__
 
 
+class RProxy(R):
+    """A transparent proxy (lazy object, weakref.proxy style): its __class__ claims to be what it stands for; type() knows better."""
+
+    @property
+    def __class__(self):
+        return RArray
+
+
 def rnd_obj(rng, text: str, cls=R):
     r = rng.random()
+    if r > 0.92:
+        return RProxy(text)
     if r < 0.12:
         return RFalsy(text)
     if r < 0.2:
